@@ -235,20 +235,70 @@ fn run_sv<S: SigT, V: Val>(cx: &mut Ctx, c: &Case) -> R {
     }
 }
 
+/// One bucket (or two) holding more pairs than any chunk/buffer size of the
+/// store: around 2^16 pairs and around 1 MiB worth of 8-, 16-, 24- and 32-byte pairs.
+fn large_bucket_case(j: u64) -> Case {
+    let sizes = [43_690usize, 43_691, 43_692, 65_535, 65_536, 65_537, 131_071, 131_073, 32_768, 32_769, 87_381, 87_383, 100_000, 174_763, 262_145, 50_001];
+    let n = sizes[j as usize % sizes.len()];
+    let k = j / sizes.len() as u64;
+    let sig_words = if k % 4 == 3 { 1 } else { 2 };
+    let val_kind = [1u8, 0, 2, 3][(k / 4) as usize % 4];
+    let offline = k % 8 != 7;
+    let bucket_bits = [0u32, 1, 0, 2][(k % 4) as usize];
+    let shard_bits = match (j / 3) % 4 {
+        0 => bucket_bits + 1,
+        1 => bucket_bits + 2,
+        2 => bucket_bits,
+        _ => bucket_bits.saturating_sub(1),
+    };
+    let max_shard_bits = shard_bits.max(bucket_bits) + (j % 2) as u32;
+    let mut x = 0x9E37_79B9_7F4A_7C15u64 ^ j.wrapping_mul(0xD6E8_FEB8_6659_FD93);
+    let mut next = || {
+        x ^= x << 13;
+        x ^= x >> 7;
+        x ^= x << 17;
+        x
+    };
+    // all pairs in the first bucket when j % 5 == 0 (one bucket carries everything), uniform otherwise
+    let one_bucket = j % 5 == 0 && bucket_bits > 0;
+    let pairs = (0..n as u64)
+        .map(|i| {
+            let mut a = next();
+            if one_bucket {
+                a >>= bucket_bits;
+            }
+            (a, next(), i)
+        })
+        .collect();
+    Case { sig_words, val_kind, offline, bucket_bits, max_shard_bits, shard_bits, pairs }
+}
+
 impl Property for C18 {
     fn id(&self) -> &'static str {
         "C18"
     }
     fn plan(&self, tier: Tier) -> Vec<Segment> {
-        vec![Segment::random("stores", tier.pick(100_000, 1_500_000), &[0], 16, 300), Segment::random("big-stores", tier.pick(6_000, 60_000), &[1], 16, 300)]
+        vec![
+            Segment::random("stores", tier.pick(100_000, 1_500_000), &[0], 16, 300),
+            Segment::random("big-stores", tier.pick(6_000, 60_000), &[1], 16, 300),
+            // buckets above every buffer size the store could use: 2^10 pairs, 2^16 pairs, 1 MiB of 8/16/24/32-byte pairs
+            Segment::enumerated("large-buckets", tier.pick(32, 256), &[2]),
+        ]
     }
     fn rule(&self) -> &'static str {
-        "case = (signature type in {[u64;1],[u64;2]}, value type in {u8,u64,usize,EmptyVal}, online/offline, bucket bits 0..=8 (offline 0..=4), max shard bits 0..=10, requested shard bits 0..=max (fewer, equal, more than the bucket bits), a multiset of pairs whose high bits are uniform / all in one shard / in two adjacent shards / all ones / all zeros, with exact duplicates) decoded from bytes; oracle = a hash multiset of (home shard, sig, value) built from the pushed pairs; observed SigStore::len after every push, ShardStore::len, shard_sizes, two borrowed iterations and the consuming one: number of shards, each shard's length, home shard of every pair, multiset equality. Non-trivial: at least 2 non-empty shards and shard bits != bucket bits; distinct = distinct hash of the decoded case."
+        "case = (signature type in {[u64;1],[u64;2]}, value type in {u8,u64,usize,EmptyVal}, online/offline, bucket bits 0..=8 (offline 0..=4), max shard bits 0..=10, requested shard bits 0..=max (fewer, equal, more than the bucket bits), a multiset of pairs whose high bits are uniform / all in one shard / in two adjacent shards / all ones / all zeros, with exact duplicates) decoded from bytes; oracle = a hash multiset of (home shard, sig, value) built from the pushed pairs; observed SigStore::len after every push, ShardStore::len, shard_sizes, two borrowed iterations and the consuming one: number of shards, each shard's length, home shard of every pair, multiset equality. Plus an enumerated segment of stores whose single buckets hold 32768..262145 pairs (around 2^15, 2^16, 2^17 pairs and 1 MiB of 8/16/24/32-byte pairs), online and offline, split, equal and aggregate. Non-trivial: at least 2 non-empty shards and shard bits != bucket bits; distinct = distinct hash of the decoded case."
     }
     fn run(&self, data: &[u8], cx: &mut Ctx) -> R {
         let (mode, rest) = data.split_first().unwrap_or((&0, &[]));
         let mut u = Unstructured::new(rest);
-        let c = decode(&mut u, *mode == 1);
+        let c = if *mode == 2 {
+            let mut b = [0u8; 8];
+            b[..rest.len().min(8)].copy_from_slice(&rest[..rest.len().min(8)]);
+            large_bucket_case(u64::from_le_bytes(b))
+        } else {
+            decode(&mut u, *mode == 1)
+        };
+        cx.label_if(*mode == 2, "large_bucket");
         cx.hash(&c);
         cx.describe(|| format!("sig_words={} val_kind={} offline={} bucket_bits={} max_shard_bits={} shard_bits={} pairs({})={:x?}", c.sig_words, c.val_kind, c.offline, c.bucket_bits, c.max_shard_bits, c.shard_bits, c.pairs.len(), &c.pairs[..c.pairs.len().min(6)]));
         cx.label(if c.offline { "offline" } else { "online" });
